@@ -27,6 +27,7 @@ type Keys struct {
 	buf       []byte      // Keys read and waiting to be used.
 	matched   []rune      // Keys that have been successfully matched against a bind.
 	macroKeys []rune      // Keys that have been fed by a macro.
+	partial   []byte      // First bytes of a character split across two reads (convert-meta).
 	mustWait  bool        // Keys are in the stack, but we must still read stdin.
 	waiting   bool        // Currently waiting for keys on stdin.
 	reading   bool        // Currently reading keys out of the main loop.
@@ -85,8 +86,8 @@ func WaitAvailableKeys(keys *Keys, cfg *inputrc.Config) error {
 		default:
 			// When convert-meta is on, any meta-prefixed bind should
 			// be stripped and replaced with an escape meta instead.
-			if keys.cfg != nil && keys.cfg.GetBool("convert-meta") {
-				keyBuf = []byte(strutil.ConvertMeta([]rune(string(keyBuf))))
+			if keyBuf = keys.convertMeta(keyBuf); len(keyBuf) == 0 {
+				continue
 			}
 
 			keys.mutex.RLock()
@@ -96,6 +97,31 @@ func WaitAvailableKeys(keys *Keys, cfg *inputrc.Config) error {
 
 		return nil
 	}
+}
+
+// convertMeta applies the convert-meta setting to the keys of a read. Only complete
+// characters are converted: the first bytes of a character split across two reads
+// are kept aside until the next read, instead of being converted as invalid ones.
+func (k *Keys) convertMeta(read []byte) []byte {
+	if k.cfg == nil || !k.cfg.GetBool("convert-meta") {
+		return read
+	}
+
+	read = append(k.partial, read...)
+	k.partial = nil
+
+	for i := len(read) - 1; i >= 0 && i >= len(read)-utf8.UTFMax; i-- {
+		if utf8.RuneStart(read[i]) {
+			if !utf8.FullRune(read[i:]) {
+				k.partial = append(k.partial, read[i:]...)
+				read = read[:i]
+			}
+
+			break
+		}
+	}
+
+	return []byte(strutil.ConvertMeta([]rune(string(read))))
 }
 
 // PopKey is used to pop a key off the key stack without
